@@ -24,7 +24,7 @@ import SphericalVerif.Lemmas.DDef
     phase and index convention: the ϵ factors, the roles of z_α and z_γ, the conjugations for negative indices, the
     wedge folding); and, for EVERY ℓ ≤ ell_max, the three one-parameter families where the H recursion collapses:
     the identity, rotations about z (β = 0: `sqrtb = 0` branch) and rotations by π about an axis in the x-y plane
-    (β = π: `sqrta = 0` branch).  NOT proved: agreement with `docD ℓ` for ℓ ≥ 2 at generic β. -/
+    (β = π: `sqrta = 0` branch).  Agreement with `docD ℓ` for every ℓ and every unit quaternion is proved later, in `Props/DAll.lean` (`DAll.D_all`), on top of `Props/DocD.lean`. -/
 noncomputable section
 namespace DDef
 open Model Spec Horner
